@@ -119,7 +119,7 @@ func runDetMarshal(c *simrun.Ctx) *simrun.Violation {
 		st.Add("runs_discarded_build_mismatch", 1)
 		return nil
 	}
-	warmUp(md, nil, nil)
+	warmUp(md, false)
 	sched := simhook.NewSched()
 	sched.MaxSteps = 300 + t.Draw("maxsteps", 600)
 	for i := range msgs {
